@@ -305,7 +305,10 @@ def gen_random_single(rng, n, pool):
 
 
 def gen_random_equation(rng, n, pool):
-    words = ['the', 'The', 'and', 'Ünd', 'x', 'X', '1st', 'élan', 'Ж', 'ж']
+    # (letters without case -- CJK, Hebrew --, title-case digraphs, feminine
+    # ordinal: a word counts as lower-case only if its first letter is)
+    words = ['the', 'The', 'and', 'Ünd', 'x', 'X', '1st', 'élan', 'Ж', 'ж',
+             '\u4e2d\u6587', '\u05e9\u05dc\u05d5\u05dd', '\u01c5emal', '\u00aab', '\u0646\u0635']
     seps = [' ', '  ', '\n', ' \n ', '', ', ', ',', ';', ': ', '. ', '.', ' .',
             '\t', NBSP, ' - ', '(', ')']
     for _ in range(n):
@@ -448,8 +451,12 @@ def shell_stream(res, tier):
         if mode is not None:
             args += ['--equation-punctuation', mode]
         r = shellrun.run_shell({'t.tex': SHELL_DOC}, args + ['t.tex'])
-        return cfg, r
-    for cfg, r in shellrun.pmap(one, configs):
+        rx = None
+        if mode is not None and single in (None, '||'):
+            # the same run as an XML report: line / column of the same characters
+            rx = shellrun.run_shell({'t.tex': SHELL_DOC}, ['--output', 'xml'] + args[2:] + ['t.tex'])
+        return cfg, (r, rx)
+    for cfg, (r, rx) in shellrun.pmap(one, configs):
         lang, l2, ml, single, mode = cfg
         case = {'check': 'shell', 'language': lang, 'multi_language': ml,
                 'single_letters': single, 'equation_punctuation': mode}
@@ -481,6 +488,21 @@ def shell_stream(res, tier):
                          'file, outside every formula (%r)' % (marked, o, SHELL_DOC[o:o + 10]))
         if place:
             res.failures.append((key + ':place', case, place))
+        if rx is not None and rx.rc == 0:
+            import shellcase
+            wantx = []
+            for m in _json.loads(r.out.decode('utf-8'))['matches']:
+                b = m['offset']; e = b + m['length'] - 1
+                wantx.append((SHELL_DOC.count('\n', 0, b), b - (SHELL_DOC.rfind('\n', 0, b) + 1),
+                              SHELL_DOC.count('\n', 0, e), e - (SHELL_DOC.rfind('\n', 0, e) + 1) + 1))
+            try:
+                gotx = [tuple(x) for x in shellcase.parse_xml(rx.out.decode('utf-8'))]
+            except Exception as e_:
+                gotx = 'unparsable: %r' % e_
+            if gotx != wantx:
+                res.failures.append((key + ':xml', case,
+                                     'the XML report gives line/column %r, offset and length of the '
+                                     'JSON report select %r' % (gotx, wantx)))
         d, i, ch = ph[l2]
         want = []
         for call in r.calls:
